@@ -330,6 +330,8 @@ def gen(chk, tier):
     ex2 = []
     for progs, (_, scheds) in zip(pl, enum_many(pl, "all", 2500 if quick else 200000)):
         ex2 += ["c16 progs=%s sched=%s" % (prog_str(progs), s) for s in scheds]
+    if quick:
+        ex2 = ex2[:36000]     # the fixed programs come first; bounds the run time whatever the random programs are
     streams.append(("exhaustive-2x2", ex2))
     # (c) one schedule per (reachable model state, thread) edge incl. the disabled steps, 3 threads x <= 2 calls
     pl = [[rand_prog(rng, 2), rand_prog(rng, 2), rand_prog(rng, 2)] for _ in range(9 if quick else 300)]
@@ -396,6 +398,8 @@ def gen_wait_forced(chk, tier):
     ex2 = []
     for progs, (_, scheds) in zip(pl, enum_many(pl, "all", 450 if quick else 200000)):
         ex2 += ["c16 progs=%s sched=%s" % (prog_str(progs), s) for s in scheds]
+    if quick:
+        ex2 = ex2[:9000]
     streams.append(("exhaustive-2x2-wait", ex2))
     # (g) one schedule per (reachable model state, thread) edge, 3 threads
     pl = list(FIXED_WAIT_3)
@@ -406,6 +410,8 @@ def gen_wait_forced(chk, tier):
     ed = []
     for progs, (n, scheds) in zip(pl, enum_many(pl, "edges", 450 if quick else 60000)):
         ed += ["c16 progs=%s sched=%s" % (prog_str(progs), s) for s in scheds]
+    if quick:
+        ed = ed[:7000]
     streams.append(("state-edge-cover-3-wait", ed))
     # (h) for every reachable model state and every thread parked before the held mutex there: the path to the state,
     #     then that thread FORCED (its goroutine goes into the real Lock()), then (1) the round-robin completion,
